@@ -12,7 +12,9 @@ package main
 // source text of the probe arguments and go/types.
 
 import (
+	"fmt"
 	"go/types"
+	"strconv"
 	"strings"
 )
 
@@ -86,6 +88,28 @@ func buildHoldRules(rs *ruleset) {
 		return "", false
 	}
 	rs.do("report_empty_string", "ctx.SetReport(ctx.Var(`x`).Text())\nctx.SetReport(``)", func(o *oenv, s *site) string { return "<empty message>" })
+
+	// ---------------------------------------------------------------- constants and stdlib natives through the engine's loader
+	// (the same compiler and VM as in harness/cmd/c04, reached through ir_loader's CompileContext and the engine's Env)
+	const longA = "the argument of this call is evaluated twice, consider storing it in a local variable"
+	const longB = "the argument of this call is evaluated twice, consider storing it in a package-level variable"
+	rs.funcs = append(rs.funcs, "const k_longA = "+strconv.Quote(longA)+"\nconst k_longB = "+strconv.Quote(longB)+"\nconst k_fmt = `100%% sure: %s (%d)`\n")
+	rs.do("long_consts", "t := ctx.Var(`x`).Type()\nif types.AsPointer(t) != nil {\n\tctx.SetReport(k_longA)\n\tctx.SetSuggest(k_longB)\n\treturn\n}\nif types.AsSlice(t) != nil {\n\tctx.SetReport(k_longB + `!`)\n\treturn\n}\nctx.SetReport("+strconv.Quote(longA[:70])+")",
+		func(o *oenv, s *site) string {
+			if oPtr(s.T) != nil {
+				return longA
+			}
+			if oSlice(s.T) != nil {
+				return longB + "!"
+			}
+			return longA[:70]
+		})
+	rs.groups[len(rs.groups)-1].osuggOpt = func(o *oenv, s *site) (string, bool) { return longB, oPtr(s.T) != nil }
+	rs.do("stdlib_natives", "x := ctx.Var(`x`).Text()\nctx.SetReport(fmt.Sprintf(`100%% done`) + fmt.Sprintf(k_fmt, strings.TrimPrefix(x, `*`), len(x)) + strconv.Itoa(len(strings.ReplaceAll(x, `(`, ``))) + fmt.Sprintf(`%d%%`))",
+		func(o *oenv, s *site) string {
+			x := s.Text
+			return "100% done" + fmt.Sprintf("100%% sure: %s (%d)", strings.TrimPrefix(x, "*"), len(x)) + strconv.Itoa(len(strings.ReplaceAll(x, "(", ""))) + "%!d(MISSING)%"
+		})
 
 	// one-variable sites: the same handle asked for several times, objects built from its type held together
 	rs.do("hold_ctor", "x := ctx.Var(`x`)\nt := x.Type()\np := types.NewPointer(t)\nq := types.NewSlice(t)\na := types.NewArray(t, 2)\nb := types.NewArray(t, 3)\npp := types.NewPointer(p)\n"+
